@@ -56,7 +56,9 @@ class Message:
         """Transforms the message object into a correct message string, the CR
         LF trailing is omitted."""
         return_str = ""
-        args_str = "," + ",".join(self.arguments) if self.arguments else ""
+        args_str = ",".join(self.arguments) if self.arguments else ""
+        if args_str:
+            args_str = "," + args_str
         if self.is_reply():
             args = (
                 self.message_type,
